@@ -145,6 +145,7 @@ class Gen:
             "intref": ("int &%s" % name, True, "%s:(REF %s)" % (name, INT)),
             "constint": ("const int %s" % name, False, "%s:(CONSTANT (INT))" % name),
             "idT": ("const idT %s" % name, False, "%s:(CONSTANT (LABEL idT (RANGE (INT) (CONSTANT int 0) (CONSTANT int 3))))" % name),
+            "constintref": ("const int &%s" % name, True, "%s:(REF (CONSTANT (INT)))" % name),
             "clockref": ("clock &%s" % name, True, "%s:(REF (CLOCK))" % name),
             "chanref": ("chan &%s" % name, True, "%s:(REF (CHANNEL))" % name),
         }
@@ -170,7 +171,7 @@ class Gen:
     def template(self, t):
         r = self.r
         name = "T%d" % t
-        pk = ["int", "intref", "constint", "idT", "clockref", "chanref"]
+        pk = ["int", "intref", "constint", "constintref", "idT", "clockref", "chanref"]
         bounded_only = r.random() < 0.25
         np_ = r.choice([0, 0, 1, 2, 3, 4] if self.size <= 1 else [0, 1, 2, 3, 4, 5, 6, 7])
         params = []
@@ -233,7 +234,11 @@ class Gen:
                 c = r.random()
                 # (an upper bound equal to the default limit of `int` is still a bound of its own)
                 ty = ["named", "idT"] if c < 0.3 else ["range", r.choice([0, 1]), 32767] if c < 0.4 else ["range", 0, self.K()]
-                sel.append(["i%d" % i, ty])
+                # a binder may shadow a template-local or a global variable (the reader warns and still binds it)
+                nm = "i%d" % i
+                if r.random() < 0.12 and not any(b[0] in ("m", "gn") for b in sel):
+                    nm = r.choice(["m", "gn"])
+                sel.append([nm, ty])
             labels.append(["select", sel])
         rest = []
         if not src_bp and r.random() < 0.5:
@@ -283,6 +288,8 @@ class Gen:
             return ["int", self.K()]
         if kind == "intref":
             return ["id", "gv%d" % r.randint(0, 2)]
+        if kind == "constintref":
+            return ["id", "gv%d" % r.randint(0, 2)] if r.random() < 0.5 else ["int", self.K()]
         if kind == "idT":
             return ["int", r.randint(2, 3)]      # not 1: "(CONSTANT int 1)" is also the default guard/update/weight
         if kind == "clockref":
